@@ -1,3 +1,4 @@
+import WmModel.Props.C05Prod
 import WmModel.Props.C07Locks
 import WmModel.Props.C11
 import WmModel.Props.C11Reg
@@ -15,3 +16,6 @@ import WmModel.Props.C11Reg
 #print axioms Wm.GcReg.publish_sends_whole_batch
 #print axioms Wm.GcReg.subscription_registered_once
 #print axioms Wm.GcReg.c11_witness
+#print axioms Wm.GcProd.publications_are_the_log
+#print axioms Wm.GcProd.exactly_once_when_all_acked
+#print axioms Wm.GcProd.prod_witness
